@@ -101,6 +101,12 @@ class Checker:
             self.undecided(rule, instance, e.site or site, "shape error outside a shape rule: %s" % e)
         except RecursionError:
             self.undecided(rule, instance, site, "recursion limit")
+        except (TypeError, AttributeError) as e:
+            # a value without a term (None) reached a rule that compares terms: the analyser does not follow that value
+            if "None to Poly" in str(e) or "'NoneType' object has no attribute" in str(e):
+                self.undecided(rule, instance, site, "a value compared by this rule is not followed by the analyser (no term): %s" % e)
+            else:
+                raise
 
     def require_min(self, rule, minimum):
         n = sum(1 for r in self.results if r.rule == rule)
